@@ -115,6 +115,30 @@ class C17(Prop):
                 req = sx.inv_attr(sx.dx(tl), it) if mode == 'attr' else sx.inv_derive(
                     kw + sx.a_derive_ex(sx.dx(tl)) + ' ' + it[len(kw):])
                 out.append((req, dict(features=('hash-ignore', tn, shape, mode, tl[0][0]), ok=ok, nontrivial=True)))
+        # TWO customisations that do not reach Eq on one field (`partial_ord` / `partial_eq` key or by, no eq / ord one): the
+        # default Eq cannot be used - refused, however many such attributes there are
+        u8t = sx.tid('u8')
+        mis = {'pord-key': sx.a_cmp('partial_ord', sx.m_list(sx.cargs(key='( $ as f32 )'))),
+               'peq-key': sx.a_cmp('partial_eq', sx.m_list(sx.cargs(key='( $ as f32 )'))),
+               'pord-by': sx.a_cmp('partial_ord', sx.m_list(sx.cargs(by='| a : & u8 , b : & u8 | a . partial_cmp ( b )'))),
+               'peq-by': sx.a_cmp('partial_eq', sx.m_list(sx.cargs(by='by_u')))}
+        for (n1, n2), shape, mode in itertools.product([('pord-key', 'peq-key'), ('peq-key', 'pord-key'), ('pord-by', 'peq-by'),
+                                                        ('pord-key', 'peq-by'), ('peq-key', None), ('pord-key', None)],
+                                                       ('named', 'tuple', 'enumt1'), ('attr', 'derive')):
+            tup = shape != 'named'
+            at = [mis[n1]] + ([mis[n2]] if n2 else [])
+            fs = [sx.field(u8t, name=None if tup else 'f0', attrs=at), sx.field(u8t, name=None if tup else 'f1')]
+            body = sx.unnamed(fs) if tup else sx.named(fs)
+            if shape == 'enumt1':
+                it = sx.enum('E', [sx.variant('B', sx.UNIT), sx.variant('A', body)])
+                kw = '(enum ('
+            else:
+                it = sx.struct('X', body)
+                kw = '(struct ('
+            tl = [('PartialOrd', None), ('PartialEq', None), ('Eq', None)]
+            req = sx.inv_attr(sx.dx(tl), it) if mode == 'attr' else sx.inv_derive(
+                kw + sx.a_derive_ex(sx.dx(tl)) + ' ' + it[len(kw):])
+            out.append((req, dict(features=('misplaced-custom', n1, str(n2), shape, mode), ok=False, nontrivial=True)))
         # both #[eq(..)] and #[ord(..)] on one field
         for fo, shape, mode in itertools.product(double_options(), ('named', 'tuple', 'enum1'), ('attr', 'derive')):
             name, t, at, ok = fo
